@@ -5,6 +5,8 @@ import (
 	"fmt"
 	"net"
 	"net/netip"
+	"testing"
+	"testing/synctest"
 	"time"
 
 	"github.com/gopacket/gopacket"
@@ -553,4 +555,22 @@ func decodeSCMP(raw []byte) (*scmpInfo, error) {
 // hostAddr is the underlay source address of the local end host that sends k.
 func (l *lab) hostAddr(k *forgeCase) *net.UDPAddr {
 	return &net.UDPAddr{IP: k.opts.srcHost.IP().AsSlice(), Port: int(k.opts.sport)}
+}
+
+// bubble runs f inside a testing/synctest bubble. rapid signals "discard this case" and shrink
+// overruns by panicking; such a panic must surface on rapid's own goroutine, not inside the bubble
+// (where it would kill the process), so it is carried out and re-raised.
+func bubble(t *testing.T, f func()) {
+	var pv any
+	synctest.Test(t, func(t *testing.T) {
+		defer func() {
+			if r := recover(); r != nil {
+				pv = r
+			}
+		}()
+		f()
+	})
+	if pv != nil {
+		panic(pv)
+	}
 }
